@@ -26,6 +26,8 @@ import Dawgs.Proofs.C01Count
 import Dawgs.Proofs.C01CountHop
 import Dawgs.Proofs.C01Limit
 import Dawgs.Proofs.C01With
+import Dawgs.Proofs.C01WithHop
+import Dawgs.Proofs.C01Order
 namespace Dawgs.C01.Props
 open Dawgs Dawgs.Sql Dawgs.C01.Proofs
 
@@ -434,19 +436,31 @@ example : (exLimQ.trWith [("K", 1)] false true true).isSome = true ∧ (exLimQ.t
 
 theorem ofCyWith_sound (q : Cy.Query) (s : S3.Query) (h : ofCyWith q = some s) : s.toCy = q := Proofs.ofCyWith_sound q s h
 
+theorem ofCyWithHop_sound (q : Cy.Query) (s : S3b.Query) (h : ofCyWithHop q = some s) : s.toCy = q := Proofs.ofCyWithHop_sound q s h
+
 theorem tr7_some (flipOf : S2.Query → Bool) (flipCh : Ch.Query → Bool) (flipN : S2n.Query → Bool) (fast prune push : Bool) (km : KindMap) (q : Cy.Query)
     (st : Stmt) (ps : List (String × Val)) (h : tr7F flipOf flipCh flipN fast prune push km q = some (st, ps)) :
-    (ofCyWith q = none ∧ tr6F flipOf flipCh flipN fast prune push km q = some (st, ps)) ∨
-    (∃ s : S3.Query, ofCyWith q = some s ∧ s.toCy = q ∧ s.tr km = some st ∧ ps = []) := by
+    (ofCyWith q = none ∧ ofCyWithHop q = none ∧ tr6F flipOf flipCh flipN fast prune push km q = some (st, ps)) ∨
+    (∃ s : S3.Query, ofCyWith q = some s ∧ s.toCy = q ∧ s.tr km = some st ∧ ps = []) ∨
+    (∃ s : S3b.Query, ofCyWithHop q = some s ∧ s.toCy = q ∧ s.tr km = some st ∧ ps = []) := by
   unfold tr7F at h
   cases ho : ofCyWith q with
-  | none => rw [ho] at h; exact Or.inl ⟨rfl, h⟩
   | some s =>
     rw [ho] at h
     simp only [Option.map_eq_some_iff] at h
     obtain ⟨st', hst, heq⟩ := h
     cases heq
-    exact Or.inr ⟨s, rfl, ofCyWith_sound q s ho, hst, rfl⟩
+    exact Or.inr (Or.inl ⟨s, rfl, ofCyWith_sound q s ho, hst, rfl⟩)
+  | none =>
+    rw [ho] at h
+    cases ho2 : ofCyWithHop q with
+    | some s =>
+      rw [ho2] at h
+      simp only [Option.map_eq_some_iff] at h
+      obtain ⟨st', hst, heq⟩ := h
+      cases heq
+      exact Or.inr (Or.inr ⟨s, rfl, ofCyWithHop_sound q s ho2, hst, rfl⟩)
+    | none => rw [ho2] at h; exact Or.inl ⟨rfl, rfl, h⟩
 
 /-- `tr_sound_S3a`: MATCH (n[:K…]) [WHERE p] WITH w1, …, wk RETURN r1, …, rm with wi ::= n | n AS m | n.k AS x and rj ::= m | m.k | id(m) | x
 [AS a] over the exported names — for every graph with `GraphOK`: whenever the nested statement
@@ -468,10 +482,90 @@ theorem tr_total_S3a (km : KindMap) (g : Graph) (hok : GraphOK km g) (s : S3.Que
   · rw [hsql] at hm; cases hm
   · rw [hsql] at hm; cases hm
 
+/-- `tr_sound_S3b`: MATCH (n[:K…]) [WHERE p] WITH n MATCH (n)-[r[:T|…]]->(b[:K…]) RETURN items (items over n, r, b, each read) — for every graph
+with `GraphOK2`: whenever the statement `with s0 as (<hand-over of n>), s2 as (<step frame from s0>) select <items> from s2` evaluates, the
+reference semantics yields a result and both show the client the same rows in the same order -/
+theorem tr_sound_S3b (km : KindMap) (g : Graph) (hok : GraphOK2 km g) (s : S3b.Query) (st : Stmt) (h : s.tr km = some st) (t : Table)
+    (ht : Sql.eval (encode km g) st [] = .ok t) : ∃ r, Cy.eval .none g s.toCy = .ok r ∧ Agree km g t r := by
+  obtain ⟨r, names, rows, hr, hsql, hrows⟩ := s3b_sound km g hok s st h
+  rcases hsql with hsql | ⟨w, hsql⟩
+  · rw [hsql] at ht; cases ht; exact ⟨r, hr, hrows⟩
+  · rw [hsql] at ht; cases ht
+
+theorem tr_total_S3b (km : KindMap) (g : Graph) (hok : GraphOK2 km g) (s : S3b.Query) (st : Stmt) (h : s.tr km = some st) :
+    (∃ r, Cy.eval .none g s.toCy = .ok r) ∧ (∀ m, Sql.eval (encode km g) st [] ≠ .error (.runtime m)) := by
+  obtain ⟨r, names, rows, hr, hsql, _⟩ := s3b_sound km g hok s st h
+  refine ⟨⟨r, hr⟩, fun m hm => ?_⟩
+  rcases hsql with hsql | ⟨w, hsql⟩
+  · rw [hsql] at hm; cases hm
+  · rw [hsql] at hm; cases hm
+
+def exWithHopQ : S3b.Query := ⟨"n", ["K"], none, none, ⟨"r", [], "b", []⟩, [.ent (.node 0) none, .idOf (.rel 0) none, .prop (.node 1) "name" none]⟩
+example : (ofCyWithHop exWithHopQ.toCy == some exWithHopQ) = true := by decide +kernel
+example : (exWithHopQ.tr [("K", 1)]).isSome = true := by decide +kernel
+
 /-- the stage is inhabited: MATCH (n:K) WHERE n.a = 1 WITH n AS m, n.name AS x RETURN m, x, id(m) is recognised as itself and translated -/
 def exWithQ : S3.Query := ⟨"n", ["K"], some (.propEqInt false "a" 1), [.node (some "m"), .prop "name" "x"], [.node 0 none, .val 1 none, .id 0 none]⟩
 example : (ofCyWith exWithQ.toCy == some exWithQ) = true := by decide +kernel
 example : (exWithQ.tr [("K", 1)]).isSome = true := by decide +kernel
+
+/-! ### stage S1o: ORDER BY on a property — `tr8F`. The jsonb order of the sort key and openCypher's order coincide exactly under `KeyOK` -/
+
+theorem ofCyOrder_sound (q : Cy.Query) (s : S1o.Query) (h : ofCyOrder q = some s) : s.toCy = q := Proofs.ofCyOrder_sound q s h
+
+theorem keyOK_of_check (g : Graph) (k : String) (h : keyOKb g k = true) : KeyOK k g.nodes := keyOKb_sound g k h
+
+theorem tr8_some (flipOf : S2.Query → Bool) (flipCh : Ch.Query → Bool) (flipN : S2n.Query → Bool) (fast prune push : Bool) (km : KindMap) (q : Cy.Query)
+    (st : Stmt) (ps : List (String × Val)) (h : tr8F flipOf flipCh flipN fast prune push km q = some (st, ps)) :
+    (ofCyOrder q = none ∧ tr7F flipOf flipCh flipN fast prune push km q = some (st, ps)) ∨
+    (∃ s : S1o.Query, ofCyOrder q = some s ∧ s.toCy = q ∧ s.tr km = some st ∧ ps = []) := by
+  unfold tr8F at h
+  cases ho : ofCyOrder q with
+  | none => rw [ho] at h; exact Or.inl ⟨rfl, h⟩
+  | some s =>
+    rw [ho] at h
+    simp only [Option.map_eq_some_iff] at h
+    obtain ⟨st', hst, heq⟩ := h
+    cases heq
+    exact Or.inr ⟨s, rfl, ofCyOrder_sound q s ho, hst, rfl⟩
+
+/-- `tr_sound_S1o`: MATCH (n[:K…]) [WHERE p] RETURN items ORDER BY n.k [ASC|DESC] [SKIP i] [LIMIT j] — for every graph with `GraphOK` whose values
+of property k are scalars with no boolean value meeting a number value (`KeyOK`, the hypothesis that makes the KNOWN DEVIATION
+order-by-uses-jsonb-cross-type-order explicit: outside it the statement sorts Number < Boolean where openCypher sorts Boolean < Number, and
+arrays / objects differ again): whenever the statement yields a table and the reference semantics answers, both show the client the same rows
+in the same order -/
+theorem tr_sound_S1o (km : KindMap) (g : Graph) (hok : GraphOK km g) (s : S1o.Query) (hK : KeyOK s.key g.nodes) (st : Stmt) (h : s.tr km = some st)
+    (t : Table) (ht : Sql.eval (encode km g) st [] = .ok t) (r : List String × List (List Cy.CVal)) (hr : Cy.eval .none g s.toCy = .ok r) :
+    Agree km g t r := by
+  obtain ⟨names, rows, hsql, hagree⟩ := s1o_sound km g hok s hK st h
+  rcases hsql with hsql | ⟨w, hsql⟩
+  · rw [hsql] at ht; cases ht; exact hagree r hr
+  · rw [hsql] at ht; cases ht
+
+/-- the statement never ends in an SQL run-time / type error of the model; the reference semantics refuses a query of the stage only when its
+SKIP / LIMIT cuts inside a block of equal sort keys (then openCypher does not determine the result) -/
+theorem tr_total_S1o (km : KindMap) (g : Graph) (hok : GraphOK km g) (s : S1o.Query) (hK : KeyOK s.key g.nodes) (st : Stmt) (h : s.tr km = some st) :
+    (∀ m, Sql.eval (encode km g) st [] ≠ .error (.runtime m)) ∧ (∀ m, Sql.eval (encode km g) st [] ≠ .error (.typing m)) ∧
+    ((∃ r, Cy.eval .none g s.toCy = .ok r) ∨ Cy.eval .none g s.toCy = .error "nondeterministic-skip-inside-ties" ∨
+      Cy.eval .none g s.toCy = .error "nondeterministic-limit-inside-ties") := by
+  obtain ⟨names, rows, hsql, _⟩ := s1o_sound km g hok s hK st h
+  have hwf : s.wf = true := by
+    unfold S1o.Query.tr at h
+    cases hwf : s.wf with
+    | true => rfl
+    | false => simp [hwf] at h
+  refine ⟨fun m hm => ?_, fun m hm => ?_, ?_⟩
+  · rcases hsql with hsql | ⟨w, hsql⟩
+    · rw [hsql] at hm; cases hm
+    · rw [hsql] at hm; cases hm
+  · rcases hsql with hsql | ⟨w, hsql⟩
+    · rw [hsql] at hm; cases hm
+    · rw [hsql] at hm; cases hm
+  · exact cy_refuses_only_ties g hok.nodup s hwf (keyOK_sub s.key g.nodes _ (fun n hn => (List.mem_filter.mp hn).1) hK)
+
+def exOrdQ : S1o.Query := ⟨⟨"n", ["K"], none, [.prop "name" none, .id none], none⟩, "a", false, some 1, some 2⟩
+example : (ofCyOrder exOrdQ.toCy == some exOrdQ) = true := by decide +kernel
+example : (exOrdQ.tr [("K", 1)]).isSome = true := by decide +kernel
 
 theorem ofCyCount2_sound (q : Cy.Query) (s : S2n.Query) (h : ofCyCount2 q = some s) : s.toCy = q := Proofs.ofCyCount2_sound q s h
 
